@@ -46,6 +46,28 @@ def run(prog, res):
   for q in ('kronecker_factored_lattice_lib.evaluate_with_hypercube_interpolation',):
     _g.check_clip_paths(prog, res, prog.function(q))
   res.floor('X5', 1)
+  # the formula (size-2 closed form (1 - x, x) vs. the general hat functions)
+  # is chosen by the lattice size alone: tied to clip_inputs as well, an
+  # unclipped size-2 KFL would decay outside [0, 1] where the equivalent
+  # Lattice extrapolates
+  kf = prog.function('kronecker_factored_lattice_lib.'
+                     'evaluate_with_hypercube_interpolation')
+  fast = [st for st in ast.walk(kf.node) if isinstance(st, ast.If) and any(
+      isinstance(c, ast.Compare) and dotted(c.left) == 'lattice_sizes' and
+      const_value(c.comparators[0], None) == 2 for c in ast.walk(st.test))]
+  if not fast:
+    raise AnalysisError('KFL evaluate: the size-2 dispatch was not found')
+  for i, st in enumerate(fast):
+    extra = names_read(st.test) - {'lattice_sizes'}
+    res.check(not extra, 'Y4', 'kfl|size-2-dispatch%s' % (
+        '#%d' % (i + 1) if i else ''), kf.loc(st),
+              'the size-2 closed form is chosen by lattice_sizes alone',
+              'the size-2 closed form is only used when %s as well (`%s`): '
+              'otherwise the general hat functions decay outside [0, 1] where '
+              'the 2-vertex Lattice extrapolates linearly - the two '
+              'parameterisations disagree for unclipped out-of-range inputs'
+              % (sorted(extra), norm_text(st.test)))
+  res.floor('Y4', 1)
   _cdf_pair(prog, res)
   _pwl_weights(prog, res)
   _combinators(prog, res)
